@@ -226,7 +226,15 @@ func solveWith(solvers []solverSpec, query string, dir string, name string, time
 	for got < len(solvers) {
 		x := <-ch
 		got++
-		first := strings.TrimSpace(strings.SplitN(strings.TrimSpace(x.out), "\n", 2)[0])
+		first := ""
+		for _, ln := range strings.Split(strings.TrimSpace(x.out), "\n") {
+			ln = strings.TrimSpace(ln)
+			if ln == "" || strings.HasPrefix(ln, "WARNING") {
+				continue
+			}
+			first = ln
+			break
+		}
 		res.All[x.solver] = fmt.Sprintf("%s (%.2fs)", trunc(first, 120), x.secs)
 		if first == "unsat" {
 			res.Status, res.Solver, res.Secs, res.Output = "unsat", x.solver, x.secs, x.out
